@@ -638,4 +638,256 @@ theorem redecorate_relinks (h : Heap) (l : Links) (hv : l.Valid h) :
 example : (fresh { ctr := [7], mon := [[1]] }).2.Linked ∧ (fresh { ctr := [7], mon := [[1]] }).2.Valid (fresh { ctr := [7], mon := [[1]] }).1 := by
   decide
 
+/-! ### the shallow copy protocol (`__copy__`) -/
+
+/-- **a solver object counts its own evaluations iff its counter IS the counter of its objective**: for valid
+pointers, `n` real calls of the cost add exactly `n` to `evaluations` - for every `n` - exactly when
+`solver._fcalls` is the list the decorated objective increments.  (Every way of producing a second solver object -
+pickle, `__deepcopy__`, `__copy__` - keeps "each keeps counting its own evaluations" iff it keeps this identity.) -/
+theorem counts_iff_ctr_linked (h : Heap) (l : Links) (hv : l.Valid h) :
+    (∀ ts : List Nat, evaluations (calls h l ts) l = evaluations h l + ts.length) ↔ l.solverCtr = l.closureCtr := by
+  obtain ⟨v1, v2, _, _⟩ := hv
+  constructor
+  · intro hall
+    by_contra hne
+    have h1 := hall [0]
+    simp [calls, evaluations, call, List.getD_eq_getElem?_getD, List.getElem?_set_ne (Ne.symm hne)] at h1
+  · intro heq
+    have key : ∀ (ts : List Nat) (g : Heap), l.solverCtr < g.ctr.length →
+        evaluations (calls g l ts) l = evaluations g l + ts.length := by
+      intro ts
+      induction ts with
+      | nil => intro g _; simp [calls]
+      | cons t ts ih =>
+        intro g w1
+        simp only [calls, List.length_cons]
+        rw [ih (call g l t) (by rw [call_ctr_length]; exact w1)]
+        have : evaluations (call g l t) l = evaluations g l + 1 := by
+          simp [evaluations, call, ← heq, List.getD_eq_getElem?_getD, w1]
+        rw [this]; omega
+    intro ts
+    exact key ts h v1
+
+/-- **`__copy__` as implemented keeps the link**: the shallow copy holds the very objects of the original, so it is
+linked iff the original is, shows the same counter and monitor, and `n` evaluations made through the copy add
+exactly `n` to ITS `evaluations` and `n` records to ITS evaluation monitor (the clause "keeps counting its own
+evaluations" for a solver continued through `copy.copy`) -/
+theorem shallowcopy_keeps_counting (h : Heap) (l : Links) (hv : l.Valid h) (hl : l.Linked) (ts : List Nat) :
+    let h' := (shallowCopy h l).1
+    let l' := (shallowCopy h l).2
+    l'.Linked ∧ l'.Valid h' ∧ evaluations h' l' = evaluations h l ∧ monitor h' l' = monitor h l
+    ∧ evaluations (calls h' l' ts) l' = evaluations h l + ts.length
+    ∧ monitor (calls h' l' ts) l' = monitor h l ++ ts := by
+  obtain ⟨c1, c2⟩ := linked_counts hl ts h hv
+  exact ⟨hl, hv, rfl, rfl, c1, c2⟩
+
+/-- ... and it is NOT independent of the original (the property promises independence for restored solvers and DEEP
+copies only): the evaluations made through the shallow copy are counted by the original as well -/
+theorem shallowcopy_shares_the_counter (h : Heap) (l : Links) (hv : l.Valid h) (hl : l.Linked) (ts : List Nat) :
+    evaluations (calls (shallowCopy h l).1 (shallowCopy h l).2 ts) l = evaluations h l + ts.length :=
+  (linked_counts hl ts h hv).1
+
+/-- **a shallow copy with a private counter list stops counting**: if `__copy__` gave the copy its own `_fcalls`
+list while the (shared) decorated objective keeps incrementing the old one, the copy is never linked and its
+`evaluations` stay frozen whatever it evaluates - for every heap and every valid original -/
+theorem shallow_copy_private_counter_stops_counting (h : Heap) (l : Links) (hv : l.Valid h) (ts : List Nat) :
+    let h' := (shallowCopyPrivateCtr h l).1
+    let l' := (shallowCopyPrivateCtr h l).2
+    ¬ l'.Linked ∧ evaluations (calls h' l' ts) l' = evaluations h l := by
+  obtain ⟨v1, v2, _, _⟩ := hv
+  have hne : l.closureCtr ≠ h.ctr.length := Nat.ne_of_lt v2
+  refine ⟨?_, ?_⟩
+  · unfold Links.Linked shallowCopyPrivateCtr
+    simp only
+    intro hh
+    exact hne hh.1.symm
+  · have key : ∀ (ts : List Nat) (g : Heap), evaluations (calls g (shallowCopyPrivateCtr h l).2 ts) (shallowCopyPrivateCtr h l).2
+        = evaluations g (shallowCopyPrivateCtr h l).2 := by
+      intro ts
+      induction ts with
+      | nil => intro g; simp [calls]
+      | cons t ts ih =>
+        intro g
+        simp only [calls]
+        rw [ih]
+        simp [evaluations, call, shallowCopyPrivateCtr, List.getD_eq_getElem?_getD, List.getElem?_set_ne hne]
+    rw [key]
+    simp [evaluations, shallowCopyPrivateCtr, List.getD_eq_getElem?_getD]
+
+/-- the closed witness: 3 evaluations, shallow copy, 2 more through the copy: `__copy__` as implemented says 5 (and so
+does the original), the private-counter variant says 3 -/
+theorem shallow_copy_witness :
+    let a := fresh { ctr := [], mon := [] }
+    let h := calls a.1 a.2 [10, 11, 12]
+    let c := shallowCopy h a.2
+    let p := shallowCopyPrivateCtr h a.2
+    evaluations (calls c.1 c.2 [13, 14]) c.2 = 5 ∧ evaluations (calls c.1 c.2 [13, 14]) a.2 = 5
+    ∧ monitor (calls c.1 c.2 [13, 14]) c.2 = [10, 11, 12, 13, 14]
+    ∧ evaluations (calls p.1 p.2 [13, 14]) p.2 = 3 ∧ hiddenCount (calls p.1 p.2 [13, 14]) p.2 = 5 := by
+  decide
+
+/-! ## (c) solver-private settings given to `Solve` / `Step` as keywords travel in the fields, not in `settings` -/
+
+theorem iter_add {α : Type} (f : α → α) : ∀ (m n : Nat) (a : α), iter f (m + n) a = iter f n (iter f m a) := by
+  intro m
+  induction m with
+  | zero => intro n a; simp [iter]
+  | succ m ih =>
+    intro n a
+    have : m + 1 + n = (m + n) + 1 := by omega
+    rw [this]
+    simp only [iter]
+    exact ih n _
+
+theorem iter_congr_inv {α : Type} (f g : α → α) (I : α → Prop) (hfg : ∀ a, I a → f a = g a) (hI : ∀ a, I a → I (g a)) :
+    ∀ (n : Nat) (a : α), I a → iter f n a = iter g n a ∧ I (iter g n a) := by
+  intro n
+  induction n with
+  | zero => intro a ha; exact ⟨rfl, ha⟩
+  | succ n ih =>
+    intro a ha
+    simp only [iter]
+    rw [hfg a ha]
+    exact ih (g a) (hI a ha)
+
+/-- once a strategy OF THE MODULE is in force, `_process_inputs` returns it and leaves the fields alone - whether the
+keyword is given again (what `Solve` does for every `Step`) or not (a bare `Step()` / `Solve()`) -/
+theorem de_process_fixed {C : Type} (nKnown : Nat) (s : DESet C) (hk : s.strategy < nKnown) :
+    DESet.process nKnown s {} = (s.strategy, s) ∧ DESet.process nKnown s { strategy := some s.strategy } = (s.strategy, s) := by
+  cases s
+  simp_all [DESet.process, resolve]
+
+/-- **resume = uninterrupted for a run STARTED with keywords (differential evolution 1 and 2)**: `Solve(strategy=..,
+CrossProbability=.., ScalingFactor=..)` interrupted after `m` generations (the restart file carries the three fields
+and the rest of the state `σ`) and continued by a BARE `Solve()` for `n` generations is the uninterrupted
+`Solve(..)` after `m + n` generations - for every generator `gen` of trial vectors, provided the strategy given is a
+function of `mystic.strategy` (resolvable by its name) -/
+theorem solve_kwds_resume_de {C σ : Type} (nKnown : Nat) (h0 : 0 < nKnown) (gen : Nat → C → C → σ → σ) (kw : DEKw C)
+    (hk : ∀ k, kw.strategy = some k → k < nKnown) (m n : Nat) (st : DESet C × σ) :
+    deSolveKw (DESet.process nKnown) gen {} n (deSolveKw (DESet.process nKnown) gen kw m st)
+      = deSolveKw (DESet.process nKnown) gen kw (m + n) st := by
+  -- the strategy in force
+  have heff : (DESet.process nKnown st.1 kw).1 < nKnown := by
+    unfold DESet.process
+    cases hs : kw.strategy with
+    | none => simp [resolve]; split <;> omega
+    | some k => simpa using hk k hs
+  have hstored : (DESet.process nKnown st.1 kw).2.strategy = (DESet.process nKnown st.1 kw).1 := rfl
+  generalize hE : (DESet.process nKnown st.1 kw).1 = eff at heff hstored
+  let I : DESet C × σ → Prop := fun a => a.1.strategy = eff
+  have hstep : ∀ a, I a → deStepKw (DESet.process nKnown) gen { strategy := some eff } a
+      = deStepKw (DESet.process nKnown) gen {} a ∧ I (deStepKw (DESet.process nKnown) gen { strategy := some eff } a) := by
+    intro a ha
+    have hka : a.1.strategy < nKnown := by rw [ha]; exact heff
+    obtain ⟨p1, p2⟩ := de_process_fixed nKnown a.1 hka
+    rw [ha] at p1 p2
+    unfold deStepKw
+    rw [p1, p2]
+    exact ⟨rfl, ha⟩
+  -- the state after the first `m` generations satisfies the invariant
+  have hm : I (iter (deStepKw (DESet.process nKnown) gen { strategy := some eff }) m ((DESet.process nKnown st.1 kw).2, st.2)) := by
+    have := iter_congr_inv (deStepKw (DESet.process nKnown) gen { strategy := some eff })
+      (deStepKw (DESet.process nKnown) gen { strategy := some eff }) I (fun _ _ => rfl) (fun a ha => (hstep a ha).2) m
+      ((DESet.process nKnown st.1 kw).2, st.2) hstored
+    exact this.2
+  unfold deSolveKw
+  rw [hE]
+  generalize hS : iter (deStepKw (DESet.process nKnown) gen { strategy := some eff }) m ((DESet.process nKnown st.1 kw).2, st.2) = sm at hm
+  have hkm : sm.1.strategy < nKnown := by rw [hm]; exact heff
+  obtain ⟨p1, _⟩ := de_process_fixed nKnown sm.1 hkm
+  rw [p1, hm, iter_add, hS]
+
+/-- **which state must travel / where it must be written (DE)**: if `_process_inputs` wrote back the local default
+instead of the entry of `settings`, a strategy given to `Solve` would be used for that call and never recorded: the
+run cut after 2 generations and continued by a bare `Solve()` generates with another strategy than the
+uninterrupted one (`σ` = the list of strategies the generations were made with) -/
+theorem de_writeback_must_be_the_setting_in_force :
+    let gen : Nat → Nat → Nat → List Nat → List Nat := fun strat _ _ used => used ++ [strat]
+    let st : DESet Nat × List Nat := ({ strategy := 0, probability := 9, scale := 8 }, [])
+    let kw : DEKw Nat := { strategy := some 2, cr := some 5 }
+    (deSolveKw (DESet.process 7) gen {} 1 (deSolveKw (DESet.process 7) gen kw 2 st)).2 = [2, 2, 2]
+    ∧ (deSolveKw (DESet.process 7) gen kw 3 st).2 = [2, 2, 2]
+    ∧ (deSolveKw (DESet.processLocal 7) gen kw 3 st).2 = [2, 2, 2]
+    ∧ (deSolveKw (DESet.processLocal 7) gen {} 1 (deSolveKw (DESet.processLocal 7) gen kw 2 st)).2 = [2, 2, 0]
+    ∧ (deSolveKw (DESet.processLocal 7) gen kw 2 st).1.probability = 5 := by
+  decide
+
+/-- **a user's own strategy function is NOT resumable** (the hypothesis `hk` of `solve_kwds_resume_de` cannot be
+dropped; known finding F56): the name written to `self.strategy` is not an attribute of `mystic.strategy`, so the
+restored solver continued by a bare `Solve()` resolves it to `Best1Bin` -/
+theorem solve_kwds_custom_strategy_not_resumed :
+    let gen : Nat → Nat → Nat → List Nat → List Nat := fun strat _ _ used => used ++ [strat]
+    let st : DESet Nat × List Nat := ({ strategy := 0, probability := 9, scale := 8 }, [])
+    let kw : DEKw Nat := { strategy := some 9 }
+    (deSolveKw (DESet.process 7) gen kw 3 st).2 = [9, 9, 9]
+    ∧ (deSolveKw (DESet.process 7) gen kw 2 st).1.strategy = 9
+    ∧ (deSolveKw (DESet.process 7) gen {} 1 (deSolveKw (DESet.process 7) gen kw 2 st)).2 = [9, 9, 0] := by
+  decide
+
+/-- inside that class the strongest true statement: handing the SAME function to the resumed `Solve` again is exact,
+for every strategy object (module function or not) -/
+theorem solve_kwds_resume_de_repassed {C σ : Type} (nKnown : Nat) (gen : Nat → C → C → σ → σ) (kw : DEKw C) (k : Nat)
+    (hs : kw.strategy = some k) (m n : Nat) (st : DESet C × σ) :
+    deSolveKw (DESet.process nKnown) gen { strategy := some k } n (deSolveKw (DESet.process nKnown) gen kw m st)
+      = deSolveKw (DESet.process nKnown) gen kw (m + n) st := by
+  have hE : (DESet.process nKnown st.1 kw).1 = k := by simp [DESet.process, hs]
+  have hP : ∀ s : DESet C, DESet.process nKnown s { strategy := some k }
+      = (k, { strategy := k, probability := s.probability, scale := s.scale }) := by
+    intro s; simp [DESet.process]
+  have hstored : (DESet.process nKnown st.1 kw).2.strategy = k := by simp [DESet.process, hs]
+  let I : DESet C × σ → Prop := fun a => a.1.strategy = k
+  have hI : ∀ a, I a → I (deStepKw (DESet.process nKnown) gen { strategy := some k } a) := by
+    intro a _
+    show (deStepKw (DESet.process nKnown) gen { strategy := some k } a).1.strategy = k
+    simp [deStepKw, hP]
+  have hm := (iter_congr_inv (deStepKw (DESet.process nKnown) gen { strategy := some k })
+      (deStepKw (DESet.process nKnown) gen { strategy := some k }) I (fun _ _ => rfl) hI m
+      ((DESet.process nKnown st.1 kw).2, st.2) hstored).2
+  unfold deSolveKw
+  rw [hE]
+  generalize hS : iter (deStepKw (DESet.process nKnown) gen { strategy := some k }) m ((DESet.process nKnown st.1 kw).2, st.2) = sm at hm
+  have h1 : (DESet.process nKnown sm.1 { strategy := some k }).1 = k := by simp [hP]
+  have h2 : (DESet.process nKnown sm.1 { strategy := some k }).2 = sm.1 := by
+    rw [hP]; cases hsm : sm.1; simp_all [I]
+  rw [h1, h2, iter_add, hS]
+
+/-- **the same for Nelder-Mead (`radius`, `adaptive`) and Powell (`xtol`, `imax`)**: a run started with
+`Solve(radius=.., adaptive=..)` / `Solve(xtol=.., imax=..)`, cut anywhere, and continued by a bare `Solve()` is the
+uninterrupted run, for every step function `gen` of the two settings - no hypothesis -/
+theorem solve_kwds_resume_2 {A B σ : Type} (gen : A → B → σ → σ) (kw : Kw2 A B) (m n : Nat) (st : Set2 A B × σ) :
+    solve2Kw gen {} n (solve2Kw gen kw m st) = solve2Kw gen kw (m + n) st := by
+  let eff := st.1.process kw
+  let I : Set2 A B × σ → Prop := fun a => a.1 = eff
+  have hP : ∀ s : Set2 A B, s.process { a := some eff.a, b := some eff.b } = eff := by
+    intro s; simp [Set2.process]
+  have hI : ∀ a, I a → I (step2Kw gen { a := some eff.a, b := some eff.b } a) := by
+    intro a _
+    show (step2Kw gen { a := some eff.a, b := some eff.b } a).1 = eff
+    simp [step2Kw, hP]
+  have hm := (iter_congr_inv (step2Kw gen { a := some eff.a, b := some eff.b })
+      (step2Kw gen { a := some eff.a, b := some eff.b }) I (fun _ _ => rfl) hI m (eff, st.2) rfl).2
+  unfold solve2Kw
+  show iter _ n (_, (iter (step2Kw gen { a := some eff.a, b := some eff.b }) m (eff, st.2)).2) = _
+  generalize hS : iter (step2Kw gen { a := some eff.a, b := some eff.b }) m (eff, st.2) = sm at hm
+  have h1 : sm.1.process ({} : Kw2 A B) = eff := by
+    have : sm.1 = eff := hm
+    rw [this]; simp [Set2.process]
+  rw [h1, iter_add, hS]
+  have : sm = (eff, sm.2) := by
+    have : sm.1 = eff := hm
+    rw [← this]
+  rw [← this]
+
+/-- non-vacuity: a DE run started with `strategy=Rand1Bin (2)`, `CrossProbability=5`, cut after two generations and
+resumed bare, really generates with the given settings after the cut -/
+example :
+    let gen : Nat → Nat → Nat → List (Nat × Nat × Nat) → List (Nat × Nat × Nat) := fun s p f used => used ++ [(s, p, f)]
+    (deSolveKw (DESet.process 7) gen {} 1
+        (deSolveKw (DESet.process 7) gen { strategy := some 2, cr := some 5 } 2
+          ({ strategy := 0, probability := 9, scale := 8 }, []))).2 = [(2, 5, 8), (2, 5, 8), (2, 5, 8)]
+    ∧ (solve2Kw (fun (a b : Nat) (used : List (Nat × Nat)) => used ++ [(a, b)]) {} 1
+        (solve2Kw (fun (a b : Nat) (used : List (Nat × Nat)) => used ++ [(a, b)]) { a := some 3 } 2
+          ({ a := 1, b := 4 }, []))).2 = [(3, 4), (3, 4), (3, 4)] := by
+  decide
+
 end MysticVerif.C06
